@@ -14,6 +14,19 @@ pub fn discard(reason: &'static str) -> CaseStats {
 
 /// Domain rules common to all scanning checks (DESIGN section 4).
 pub fn domain_ok(case: &Case) -> Result<(), &'static str> {
+    domain_ok_with(case, false)
+}
+
+/// Domain of the checks on the compiled structure (C02, C03, C18), whose oracles are the pattern
+/// languages per token type and the dumped automata: nullable lookahead patterns and token types
+/// shared by several patterns of a mode are legal configurations there (rules 2 and 4 of DESIGN
+/// section 4 concern the scanning semantics only).
+pub fn domain_ok_structural(case: &Case) -> Result<(), &'static str> {
+    domain_ok_with(case, true)
+}
+
+fn domain_ok_with(case: &Case, structural: bool) -> Result<(), &'static str> {
+    let nullable_lookaheads = structural;
     if case.modes.is_empty() {
         return Err("discard_no_mode");
     }
@@ -26,11 +39,11 @@ pub fn domain_ok(case: &Case) -> Result<(), &'static str> {
         }
         // token types distinct within a mode (rule 2)
         for (i, p) in m.pats.iter().enumerate() {
-            if m.pats[..i].iter().any(|q| q.tt == p.tt) {
+            if !structural && m.pats[..i].iter().any(|q| q.tt == p.tt) {
                 return Err("discard_duplicate_token_type");
             }
             if let Some(la) = &p.la {
-                if crate::rx::nullable(&la.rx) {
+                if !nullable_lookaheads && crate::rx::nullable(&la.rx) {
                     return Err("discard_nullable_lookahead");
                 }
             }
